@@ -65,7 +65,7 @@ def quiet(fn):
 
 
 # ------------------------------------------------------------------ (a) payloads
-ALPHA = st.sampled_from(list("~~~aaab1290\\e\"'@:{}[]fx ,.\n\t") + ['é', '😀', '\x1b', '    ', 'aaaa', 'bbbbb'])
+ALPHA = st.sampled_from(list("~~~aaab1290\\e\"'@:{}[]fx ,.\n\t") + ['é', '😀', '\x1b', '    ', 'aaaa', 'bbbbb', '\x85', '\u2028', '\u2029', '\x0b', '\x0c', '\x1c', '\x1e', '\r', '\r\n'])
 SPECIAL = ['~a1~', '~a4~', 'aaaa', 'aaaaa5', '~~', '~~~', 'a~~', '\\e[1m', '\\x1b', '\\e', 'f{x}', 'f{a:>3}', '"@":', '__class__', '@', '~ 4~', '~~4~', '~x12~', '1111122',
            '\\\\e', '\\u001b', '"', '\\"', '~', '', ' ', '~9~', 'xxxx~', '~xxxx', '{"hash":"0000","data":1}']
 
@@ -334,6 +334,17 @@ def run_histories(sh, n):
                     break
                 self.got[i].append((p.to, p.data))
 
+        @precondition(lambda self: bool(self.open_iters))
+        @rule(i=st.integers(0, 2))
+        def overlap(self, i):
+            # a second receive() on a reader whose first iteration is suspended: it reads to the end of the file; the first one goes on later
+            keys = sorted(self.open_iters)
+            i = keys[i % len(keys)]
+            self.log.append(['overlap', i])
+            for p in quiet(lambda: list(self.readers[i].receive())):
+                self.got[i].append((p.to, p.data))
+            self.overlaps = getattr(self, 'overlaps', 0) + 1
+
         @rule(i=st.integers(0, 2))
         def drain(self, i):
             i = i % len(self.readers)
@@ -373,7 +384,7 @@ def run_histories(sh, n):
         def teardown(self):
             for it in self.open_iters.values():
                 it.close()
-            outer.case(('history', repr(self.log)), self.interleaved >= 2, ['history', f'readers:{len(self.readers)}', 'interleaved' if self.interleaved else 'sequential'],
+            outer.case(('history', repr(self.log)), self.interleaved >= 2, ['history', f'readers:{len(self.readers)}', 'interleaved' if self.interleaved else 'sequential'] + (['overlapping receive() iterations on one reader'] if getattr(self, 'overlaps', 0) else []),
                        sample=dict(history=self.log[:12]))
             shutil.rmtree(self.dir, ignore_errors=True)
 
@@ -419,6 +430,9 @@ def replay_history(log):
                         iters.pop(i, None)
                         break
                     got[i].append((p.to, p.data))
+            elif op == 'overlap':
+                i = step[1]
+                got[i] += [(p.to, p.data) for p in quiet(lambda: list(readers[i].receive()))]
             elif op == 'drain':
                 i = step[1]
                 it = iters.pop(i, None)
